@@ -18,7 +18,7 @@ type Finding struct {
 type Oracle struct {
 	lastBack map[string]BackSpec
 	lastHost map[string]HostSpec
-	tainted  bool // some backend of this history carried two endpoints with one target
+	tainted  bool     // some backend of this history carried two endpoints with one target
 	Buckets  []string // classification of the last step (for the input distribution)
 }
 
